@@ -149,6 +149,7 @@ class Collector:
         self.known_hits = {}
         self.extra = {}
         self.last_fail = None
+        self.unreproducible = []
 
     def run(self, case):
         res = execute(self.mod, case)
@@ -186,6 +187,7 @@ class Collector:
             "samples": self.samples,
             "known_hits": self.known_hits,
             "extra": self.extra,
+            "unreproducible": self.unreproducible[:5],
         }
 
 
@@ -259,6 +261,17 @@ def run_shard(mod, tier, seed, shard, nshards, out_path):
             def test(case):
                 unknown = col.run(case)
                 if unknown:
+                    # a failure must reproduce from its case (the replay file is the evidence): re-execute once; a failure
+                    # that does not come back (scheduling of worker processes, machine load) is counted and described in
+                    # the evidence as unreproducible, and is neither a violation nor allowed to make Hypothesis give up
+                    saved = col.last_fail
+                    again = execute(mod, case)
+                    if not any(f.key == u.key for f in again.failures for u in unknown):
+                        col.extra["unreproducible_failures"] = col.extra.get("unreproducible_failures", 0) + 1
+                        col.unreproducible.append({"key": unknown[0].key, "message": unknown[0].message[:400]})
+                        col.last_fail = None
+                        return
+                    col.last_fail = saved
                     raise AssertionError(unknown[0].key)
 
             try:
@@ -269,7 +282,8 @@ def run_shard(mod, tier, seed, shard, nshards, out_path):
                 status["violation"] = {"case": col.last_fail[0], "failures": col.last_fail[1],
                                        "origin": "generated"}
             except hypothesis.errors.HypothesisException as e:
-                status["harness_error"] = f"{type(e).__name__}: {e}"
+                subs = "; ".join(f"{type(x).__name__}: {str(x)[:300]}" for x in getattr(e, "exceptions", ()))
+                status["harness_error"] = f"{type(e).__name__}: {e}" + (f" [sub-exceptions: {subs}]" if subs else "")
     except HarnessError as e:
         status["harness_error"] = str(e)[-4000:]
     except Exception as e:  # noqa: BLE001
@@ -369,6 +383,8 @@ def write_evidence(mod, tier, seed, merged, wall, n_viol, assumptions=None):
     }
     for k, v in merged["extra"].items():
         cov[k] = v
+    if merged.get("unreproducible"):
+        cov["unreproducible_failure_samples"] = merged["unreproducible"][:5]
     ev = {
         "property_id": mod.ID,
         "tier": tier,
